@@ -53,6 +53,22 @@ def chunks(tier):
             for wv in ((0, 1) if full else (0,)):
                 out.append(("A5", {"fam": "A5", "method": method, "geo": geo, "full": full, "wv": wv,
                                    "flow": "system" if i % 2 else "borehole"}))
+    rw_lots = [
+        ({"property_boundary": [[2.0, 3.0], [42.0, 3.0], [42.0, 28.0], [2.0, 28.0]], "no_go_boundaries": [],
+          "min_spacing": 5.0, "max_spacing": 12.0, "spacing_step": 0.5, "min_rotation": -90.0, "max_rotation": 0.0,
+          "rotate_step": 30.0, "perimeter_spacing_ratio": None}, 54),
+        ({"property_boundary": [[2.0, 3.0], [42.0, 3.0], [42.0, 28.0], [2.0, 28.0]], "no_go_boundaries": [],
+          "min_spacing": 5.0, "max_spacing": 12.0, "spacing_step": 0.5, "min_rotation": -90.0, "max_rotation": 0.0,
+          "rotate_step": 30.0, "perimeter_spacing_ratio": 0.8}, 60),
+        ({"property_boundary": [[5.0, 5.0], [35.0, 2.0], [45.0, 20.0], [25.0, 32.0], [4.0, 22.0]], "no_go_boundaries": [],
+          "min_spacing": 6.0, "max_spacing": 14.0, "spacing_step": 1.0, "min_rotation": -60.0, "max_rotation": 60.0,
+          "rotate_step": 20.0, "perimeter_spacing_ratio": None}, 40),
+    ]
+    for geo, nmax in (rw_lots if full else rw_lots[:2]):
+        step = 4
+        for c0 in range(1, nmax + 2, step):
+            out.append(("A6", {"fam": "A6", "method": "rowwise", "geo": geo, "nmax": nmax, "c0": c0, "cn": step,
+                               "flow": "system" if c0 % 2 == 0 else "borehole"}))
     return out
 
 
@@ -69,7 +85,7 @@ def run_case(case):
     return X.run_chunk(case, PROPS)
 
 
-def main_for(prop, run: core.Run, rule_extra: str, require=()):
+def main_for(prop, run: core.Run, rule_extra: str, require=(), only=None):
     import importlib
 
     modname = f"vf.checks.{prop.lower()}"
@@ -77,11 +93,14 @@ def main_for(prop, run: core.Run, rule_extra: str, require=()):
     for fam, ch in chunks(run.tier):
         fams.setdefault(fam, []).append(ch)
     for fam, chs in fams.items():
+        if only and fam not in only:
+            run.cap(f"family {fam} skipped by --only (debug run)")
+            continue
         run.drive(chs, family=fam, init_args=(prop,))
     rule = (
         "one evaluation = one complete GHEManager.find_design() of the real search code over a fake-physics world "
-        "(families A1 monotone thresholds, A2 sign patterns, A3 sign x rank, A4 nested lists, A5 real candidate lists with a "
-        "drilling-length world); every world of each family within the bound is enumerated; non-trivial = the search "
+        "(families A1 monotone thresholds, A2 sign patterns, A3 sign x rank, A4 nested lists, A5 real candidate lists and A6 the real RowWise "
+        "generator, both with a drilling-length world); every world of each family within the bound is enumerated; non-trivial = the search "
         "evaluated at least 3 candidates at max height; states/transitions = abstract search states "
         "(method, list shape, set of answered (candidate, height class, sign)) and simulate() steps between them. "
         + rule_extra
@@ -90,7 +109,7 @@ def main_for(prop, run: core.Run, rule_extra: str, require=()):
         rule=rule,
         bounds={"A1_list_length": 64 if run.tier == "thorough" else 24, "A2_patterns_n": 10 if run.tier == "thorough" else 8,
                 "A3_n": 5, "A4_lists_x_candidates": "3x5" if run.tier == "thorough" else "3x4",
-                "A5_lots": 6 if run.tier == "thorough" else 2, "height_window": [X.HMIN, X.HMAX]},
+                "A5_lots": 6 if run.tier == "thorough" else 2, "A6_rowwise_lots": 3 if run.tier == "thorough" else 2, "height_window": [X.HMIN, X.HMAX]},
         assumptions=[
             "worlds: excess strictly decreasing in height (linear or hyperbolic) with one root per field; never exactly 0 at a bound",
             "the physics is replaced below search_routines.GHE.simulate / calc_g_func_for_multiple_lengths; everything "
